@@ -232,7 +232,7 @@ def jobs(tier):
                         validate=1))
     # the same under a worker->parent pipe of capacity 0 (large results: the
     # worker's send blocks until the parent receives)
-    for op in (('none', 'delete', 'divide') if q else OPS):
+    for op in (('delete', 'divide') if q else OPS):
         for stop in STOPS:
             for pd in ((True,) if op in ('divide', 'generate') else (None,)):
                 out.append(dict(
